@@ -246,7 +246,7 @@ def replay_program(arg):
     if not rec['attrs']['convex']:
         return res                 # no conjugate calculus for non-convex programs (e.g. negative multiples)
     rnd = _rnd(json.dumps(f, sort_keys=True) + rec['space'], seed)
-    variants = [0] if quick else [0, 1]
+    variants = [0] if (quick or rec['k'] > 1) else [0, 1]
     for variant in variants:
         try:
             B = fu.Built(sp, f, variant)
@@ -400,6 +400,7 @@ def run(ctx):
             seen.add(k)
             progs.append(r)
     ctx.extra['programs_exported'] = len(progs)
+    ctx.extra['programs_by_outermost_rule'] = fu.by_rule(progs)       # every action of the machine is exercised
     drnd = random.Random(ctx.seed * 7919 + 11)
     dprogs = driver_programs(quick, drnd)
     with mp.Pool(min(14, os.cpu_count() or 4)) as pool:
